@@ -138,6 +138,7 @@ def c10(ctx: Ctx) -> None:
     RSER.rule_number_format(ctx)
     RSER.rule_printer_shape(ctx)
     RSER.rule_opposite_predicate(ctx)
+    RSER.rule_printer_reading(ctx)
     RE.rule_validator_covers(ctx)
 
 
